@@ -147,7 +147,7 @@ def refparseCase (f : List String) : String :=
   match parseTokenFields (f.drop 2) with
   | none => "BAD-CASE"
   | some tokens =>
-    match refParse Table.gen tokens with
+    match refParse Table.spec tokens with
     | .ok t => "ok " ++ t.render
     | .err e => s!"err {e.name}"
     | .panic s => s!"PANIC {s}"
